@@ -678,6 +678,33 @@ func main() {
 		}
 	}
 
+	// 2b. every short token sequence as a complete text (whole parse; all 1-cuts for the brace alphabet)
+	nseq := 0
+	seqRng := lib.NewRng(a.Seed + 7700) // its own stream: the other phases draw the same numbers as before
+	seen := map[string]bool{}
+	seqLen, braceLen := 3, 4
+	if thorough {
+		seqLen, braceLen = 4, 5
+	}
+	tokenSequences(tokenSpellings, seqLen, func(t string) {
+		if !seen[t] {
+			seen[t] = true
+			h.chunk(t, nil, true, "text:token-sequences", "cuts:0")
+			nseq++
+		}
+	})
+	tokenSequences(tokenSpellingsBrace, braceLen, func(t string) {
+		if !seen[t] {
+			seen[t] = true
+			h.chunk(t, nil, true, "text:token-sequences", "cuts:0")
+			nseq++
+			if nseq%7 == 0 {
+				n := len([]rune(t))
+				h.chunk(t, []int{seqRng.Intn(n + 1)}, false, "text:token-sequences", "cuts:1")
+			}
+		}
+	})
+	out.Extra["token_sequence_texts"] = nseq
 	phase("2-edge")
 	// 3. short exhaustive texts over a reduced alphabet: every 1-cut in-harness, sampled lines
 	shortLen := 4
